@@ -1545,8 +1545,19 @@ impl Vm {
             .stack
             .truncate(handler.init_stack_size);
         self.push(exc_object);
+        let unwound_frames = self.active_fiber().frames.len() > handler.frame_count;
         self.active_fiber_mut().frames.truncate(handler.frame_count);
         self.handling_exception = handler.has_catch_block();
+        if !self.handling_exception {
+            // Delivered to a catch block: the remembered throw site must not leak into the
+            // report of a later, unrelated failure.
+            self.active_fiber_mut().error_ip = None;
+        } else if unwound_frames {
+            // The frame holding the throw site is gone; the surviving frame is at the call that
+            // led to it.
+            let call_ip = self.active_fiber().current_frame().unwrap().ip;
+            self.active_fiber_mut().error_ip = Some(call_ip);
+        }
         self.active_fiber_mut().current_frame_mut().unwrap().ip = handler.catch_ip;
         self.load_frame();
 
